@@ -514,11 +514,15 @@ fn do_remapping_loop_one_device(driver: &mut impl Driver, layout: Layout, verbos
             },
             WorkingRepeat::Repeating { keys, next_wakeup, interval_ms } => {
               if !in_tablet_mode {
+                // Keys that are already held on the output are left alone: pressing them
+                // again would be redundant and releasing them would lift a key the user
+                // (or an active mapping) still holds.
+                let chord_keys: Vec<KeyCode> = keys.iter().filter(|k| !mapper.is_output_key_held(k)).cloned().collect();
                 let mut repeat_send = Vec::new();
-                for key in &keys {
+                for key in &chord_keys {
                   repeat_send.push(Pressed(*key));
                 }
-                for key in (&keys).iter().rev() {
+                for key in (&chord_keys).iter().rev() {
                   repeat_send.push(Released(*key));
                 }
                 driver.send(&repeat_send)?;
